@@ -126,6 +126,14 @@ func buildVariant(x *explore.X) *variant {
 		g.Types["E"].Values[1].Deprecated = "no B"
 		v.desc = append(v.desc, "E.B deprecated")
 	}
+	// an interface nobody implements, whose field argument types occur nowhere else
+	if x.Flip("lonely interface") {
+		g.Add(&gen.TypeDef{Kind: gen.KEnum, Name: "LE", Values: []*gen.EnumVal{{Name: "L1", Internal: 1}}})
+		g.Add(&gen.TypeDef{Kind: gen.KInput, Name: "LIn", Inputs: []*gen.ArgDef{gen.A("e:LE=L1")}})
+		g.Add(&gen.TypeDef{Kind: gen.KInterface, Name: "L", Fields: []*gen.FieldDef{gen.F("lf(a:[LIn]):String")}})
+		q.Fields = append(q.Fields, gen.F("lonely:L"))
+		v.desc = append(v.desc, "interface L without implementers, argument types LIn / LE used only there")
+	}
 	// deeper wrapping
 	if x.Flip("deep wrapping") {
 		q.Fields = append(q.Fields, gen.F("w(a:[[Int!]!]!):[[[O!]]!]"))
@@ -189,6 +197,8 @@ func construct(v *variant) (*graphql.Schema, error) {
 			late["W2"] = true
 		}
 	}
+	// reachable only through the arguments of an interface field: not listed in Types
+	late["LIn"], late["LE"] = true, true
 	var early []string
 	for _, n := range v.g.Order {
 		td := v.g.Types[n]
